@@ -947,8 +947,9 @@ def _p_compress(case):
         dcond = cond
     axis = case["axis"]
     feat = _input_features((x, d.chunks), (None, (tuple(case["cchunks"]),) if ck == "dask" else None))
-    feat += "&cond=" + ("dask" if ck == "dask" else "concrete") + ("&axis=None&nd>1" if axis is None and x.ndim > 1 else "")
+    feat += "&cond=" + ("dask" if ck == "dask" else "concrete")
     n = x.size if axis is None else x.shape[axis]
     params = ["cond=" + ck] + (["short-condition"] if ln < n else []) + (["nd>1"] if x.ndim > 1 else [])
+    params += ["axis=None"] if axis is None else []
     return {"label": "compress", "feat": feat, "params": params, "nontrivial": _split(d.chunks),
             "ref": lambda: np.compress(cond, x, axis=axis), "run": lambda: da.compress(dcond, d, axis=axis)}
